@@ -71,6 +71,10 @@ pub fn imports(root: &SyntaxNode) -> Vec<Import> {
                 }
             }
             walk(n, &mut imp, false);
+            // "imports that contain comments": anywhere inside the statement
+            if syn::any_node(n.get(), &mut |x| syn::is_comment(x.kind())) {
+                imp.has_comment = true;
+            }
             out.push(imp);
             // the source expression of an import may itself contain imports only via code blocks; descend
         }
